@@ -82,6 +82,8 @@ func TestMain(m *testing.M) {
 		vCrashChild() // C16: the re-executed binary that is killed during a configuration save
 	case "resave":
 		vResaveChild() // C16: the run after the killed one
+	case "startup":
+		vStartupChild() // C16: starts the real program in a private network namespace and reports what it announces
 	case "restore":
 		vRestoreChild() // C16: a fresh process restoring trigger settings from the file
 	}
